@@ -28,6 +28,7 @@ type tlsClientCfg struct {
 	Suites string   `json:"suites"`
 	Resume bool     `json:"resume"`
 	SV     string   `json:"sv"`
+	Order  string   `json:"order"`
 }
 type tlsMatcherCfg struct {
 	SNI  []string `json:"sni"`
@@ -157,6 +158,11 @@ func runTLSCase(base caddy.Context, tc tlsCase, idx int) (map[string]any, error)
 			return nil, err
 		}
 	}
+	if tc.C.Order == "reversed" {
+		if hello, err = reverseExtensions(hello); err != nil {
+			return nil, err
+		}
+	}
 	srv, err := serverView(hello)
 	if err != nil {
 		return nil, err
@@ -217,7 +223,7 @@ func runTLSCase(base caddy.Context, tc tlsCase, idx int) (map[string]any, error)
 		}
 	}
 	legacy := int(hello[9])<<8 | int(hello[10])
-	return map[string]any{"id": fmt.Sprintf("tls:%d", idx), "c": map[string]any{"sni": tc.C.SNI, "alpn": nonNilStrs(tc.C.ALPN), "vers": tc.C.Vers, "curves": tc.C.Curves, "suites": tc.C.Suites, "resume": tc.C.Resume, "sv": tc.C.SV},
+	return map[string]any{"id": fmt.Sprintf("tls:%d", idx), "c": map[string]any{"sni": tc.C.SNI, "alpn": nonNilStrs(tc.C.ALPN), "vers": tc.C.Vers, "curves": tc.C.Curves, "suites": tc.C.Suites, "resume": tc.C.Resume, "sv": tc.C.SV, "order": tc.C.Order},
 		"cfg": map[string]any{"sni": nonNilStrs(tc.Cfg.SNI), "alpn": nonNilStrs(tc.Cfg.ALPN)},
 		"o":   map[string]any{"srv": srv, "par": par, "verdict": verdict, "phName": phName, "phVersion": phVer, "legacy": legacy, "helloLen": len(hello)}}, nil
 }
@@ -336,5 +342,42 @@ func stripExtension(rec []byte, typ int) ([]byte, error) {
 	hl := (int(rec[6])<<16 | int(rec[7])<<8 | int(rec[8])) - removed
 	out[6], out[7], out[8] = byte(hl>>16), byte(hl>>8), byte(hl)
 	put16(3, (int(rec[3])<<8|int(rec[4]))-removed)
+	return out, nil
+}
+
+// reverseExtensions writes the extensions of a ClientHello record in reverse order; pre_shared_key (41), which
+// must be the last extension, stays last. No length changes.
+func reverseExtensions(rec []byte) ([]byte, error) {
+	if len(rec) < 9 || rec[0] != 22 || rec[5] != 1 {
+		return nil, fmt.Errorf("not a ClientHello record")
+	}
+	p := 9 + 2 + 32
+	p += 1 + int(rec[p])
+	p += 2 + (int(rec[p])<<8 | int(rec[p+1]))
+	p += 1 + int(rec[p])
+	extEnd := p + 2 + (int(rec[p])<<8 | int(rec[p+1]))
+	p += 2
+	start := p
+	var exts [][]byte
+	var psk []byte
+	for p < extEnd {
+		t := int(rec[p])<<8 | int(rec[p+1])
+		l := int(rec[p+2])<<8 | int(rec[p+3])
+		if t == 41 {
+			psk = rec[p : p+4+l]
+		} else {
+			exts = append(exts, rec[p:p+4+l])
+		}
+		p += 4 + l
+	}
+	out := append([]byte{}, rec[:start]...)
+	for i := len(exts) - 1; i >= 0; i-- {
+		out = append(out, exts[i]...)
+	}
+	out = append(out, psk...)
+	out = append(out, rec[extEnd:]...)
+	if len(out) != len(rec) {
+		return nil, fmt.Errorf("extension reordering changed the length")
+	}
 	return out, nil
 }
